@@ -1185,6 +1185,9 @@ impl Ctx {
             Err(_) => self.out.hist("raw_target", "rejected by http::Uri (cannot reach tonic)"),
         }
     }
+    fn ctx_hist_port_race(&mut self) {
+        self.out.hist("tcp.port_race_retries", "retry");
+    }
     fn hist_outcome(&mut self, regs: &[Reg], o: &Result<Obs, String>) {
         let c = outcome_class(o);
         self.out.hist("outcome", c);
@@ -1320,7 +1323,22 @@ impl Ctx {
             Err(p) => parsed.iter().map(|_| Err(format!("registration panicked: {}", p))).collect(),
             Ok(router) => {
                 let us: Vec<(&'static str, http::Uri)> = parsed.iter().map(|p| (p.2, p.3.clone())).collect();
-                wire_requests(router, &self.w, &us, plan.serve)
+                let mut res = wire_requests(router, &self.w, &us, plan.serve);
+                // the TCP variants pick a free port, release it and let Router::serve bind it again:
+                // another process can take it in between.  That is the environment, not a verdict:
+                // build the same router again and retry on another port
+                for _ in 0..4 {
+                    let raced = matches!(res.first(), Some(Err(e)) if e.contains("AddrInUse") || e.contains("Address already in use") || e.contains("could not connect to the served address") || e.starts_with("h2 handshake"));
+                    if !raced || !matches!(plan.serve, ServeBy::Tcp | ServeBy::TcpShutdown) {
+                        break;
+                    }
+                    self.ctx_hist_port_race();
+                    match build_transport(regs, &self.w, plan) {
+                        Ok(router) => res = wire_requests(router, &self.w, &us, plan.serve),
+                        Err(_) => break,
+                    }
+                }
+                res
             }
         };
         let user_router = plan.base() == "BaseAxumUser";
